@@ -68,11 +68,11 @@ static bool run_one(int scn, const std::vector<int>& prefix, Exec& out, bool sam
     }
     if (!w.vios.empty()) __sync_fetch_and_add(&st.vio_execs, 1);
     for (auto& v : w.vios) record_violation(scn, v, w.choices);
-    if (sample && w.deviations > 0) { int k = __sync_fetch_and_add(&SH->nsamples, 1); if (k < 6) {
+    if (sample && w.deviations > 0 && w.choices.size() < 300 && SH->nsamples < 6) {
         std::string s = "{\"scenario\":" + rep::jstr(SCN[scn].name) + ",\"choices\":["; for (size_t i = 0; i < w.choices.size(); ++i) { if (i) s += ","; s += std::to_string(w.choices[i].chosen); }
         s += "],\"deviations\":["; bool f = true; for (auto& c : w.choices) if (c.dev) { if (!f) s += ","; f = false; s += rep::jstr(c.what); } s += "],\"wire\":[";
         size_t n = 0; for (auto& e : w.broker->wire) { if (n++) s += ","; if (n > 14) { s += "\"...\""; break; } s += rep::jstr(std::string(e.c2b ? "C>" : "B>") + std::to_string(e.conn) + " " + (e.malformed ? "MALFORMED" : ref::describe(e.pkt))); }
-        s += "]}"; strncpy(SH->samples[k], s.c_str(), 1499); } }
+        s += "]}"; if (s.size() < 1499) { int k = __sync_fetch_and_add(&SH->nsamples, 1); if (k < 6) strncpy(SH->samples[k], s.c_str(), 1499); } }   // never truncate: a cut sample would corrupt the report
     return true;
 }
 
